@@ -779,6 +779,12 @@ def judge_c08(ops, impl):
             m = re.search(r' body=(\d+) ', obs)
             if m and int(m.group(1)) != 0:
                 bad.append((i, 'HEAD served by a GET route delivered %s body bytes' % m.group(1)))
+        if toks[0] == 'gserve' and obs.startswith('call ') and decB(toks[2]) == b'HEAD' and ' base=user:' in obs:
+            # through a Group the HEAD request of a GET route is the same HEAD request: no body, whether or not the harness
+            # saw the wrapper
+            m = re.search(r' body=(\d+) ', obs)
+            if m and int(m.group(1)) != 0:
+                bad.append((i, 'HEAD through a Group, served by a GET route, delivered %s body bytes' % m.group(1)))
         if toks[0] == 'script':
             scripts[int(toks[1])] = toks[2]
         if toks[0] == 'handle' and obs == 'ok':
